@@ -128,10 +128,11 @@ fn pass_2_internal(segment: &Segment, common_context: &CommonContext) -> Result<
                 }
             }
             Item::Def(alias, Expr::Ident(register)) => {
-                if let Some(_) = common_context.set_def(
-                    alias.to_lowercase(),
-                    Reg8::from_str(register.to_lowercase().as_str()).unwrap(),
-                ) {
+                let register = match Reg8::from_str(register.to_lowercase().as_str()) {
+                    Ok(register) => register,
+                    Err(_) => bail!("{} isn't a register, {}", register, line),
+                };
+                if let Some(_) = common_context.set_def(alias.to_lowercase(), register) {
                     // TODO: add display current string of mistake and previous location
                     bail!("Identifier {} is used twice, {}", alias, line);
                 }
